@@ -1023,6 +1023,197 @@ Section CGProofs.
     rewrite (proj2 (Rleb_true 0 tol)) by exact Htol.
     unfold out_iter, out_err. cbn [fst snd]. split; reflexivity.
   Qed.
+
+  (* ------------------------------------------------------------ monotone decrease of the energy (A-norm error)
+     for a symmetric negative semi-definite A and a right-hand side orthogonal to its kernel *)
+  Notation ip u v := (lsumR (fun q => u q * v q) pts).
+
+  Lemma lsumR_plus (F G : P -> R) l : lsumR (fun q => F q + G q) l = lsumR F l + lsumR G l.
+  Proof. induction l as [|a l IH]; [unfold lsumR; cbn; ring | rewrite !lsumR_cons, IH; ring]. Qed.
+  Lemma lsumR_scal c (F : P -> R) l : lsumR (fun q => c * F q) l = c * lsumR F l.
+  Proof. induction l as [|a l IH]; [unfold lsumR; cbn; ring | rewrite !lsumR_cons, IH; ring]. Qed.
+  Lemma lsumR_zero l : lsumR (fun _ : P => 0) l = 0.
+  Proof. induction l as [|a l IH]; [reflexivity | rewrite lsumR_cons, IH; ring]. Qed.
+
+  Lemma ip_comm u v : ip u v = ip v u.
+  Proof. apply lsumR_ext. intros; ring. Qed.
+  Lemma ip_ext u u' v v' : (forall q, In q pts -> u q = u' q) -> (forall q, In q pts -> v q = v' q) -> ip u v = ip u' v'.
+  Proof. intros H1 H2. apply lsumR_ext. intros q Hq. rewrite H1, H2 by auto. reflexivity. Qed.
+  Lemma ip_add_l u v c w : ip (fun q => u q + c * v q) w = ip u w + c * ip v w.
+  Proof.
+    rewrite <- lsumR_scal, <- lsumR_plus. apply lsumR_ext. intros; ring.
+  Qed.
+  Lemma ip_add_r w u v c : ip w (fun q => u q + c * v q) = ip w u + c * ip w v.
+  Proof. rewrite ip_comm, ip_add_l, (ip_comm u w), (ip_comm v w). reflexivity. Qed.
+  Lemma ip_zero_l u v : (forall q, In q pts -> u q = 0) -> ip u v = 0.
+  Proof. intros H. rewrite <- (lsumR_zero pts). apply lsumR_ext. intros q Hq. rewrite H by auto. ring. Qed.
+
+  Hypothesis A_sym : forall x y, ip x (A y) = ip (A x) y.
+  Hypothesis A_nsd : forall x, ip x (A x) <= 0.
+
+  Lemma ip_A_lin w f g c : ip w (A (fun q => f q + c * g q)) = ip w (A f) + c * ip w (A g).
+  Proof.
+    rewrite <- ip_add_r. apply lsumR_ext. intros q Hq. rewrite A_linear. reflexivity.
+  Qed.
+
+  (* <A p, p> = 0 forces A p = 0 (Cauchy-Schwarz for the semi-definite form) *)
+  Lemma nsd_zero p : ip (A p) p = 0 -> forall q, In q pts -> A p q = 0.
+  Proof.
+    intros K.
+    set (y := A p). set (s := ip y y). set (d := ip y (A y)).
+    assert (Hs : 0 <= s) by (apply lsumR_nonneg; intros; apply sq_nonneg).
+    assert (Hd : d <= 0) by apply A_nsd.
+    assert (G : forall t, 2 * t * s + t * t * d <= 0).
+    { intros t. pose proof (A_nsd (fun q => p q + t * y q)) as N.
+      rewrite ip_A_lin, !ip_add_l in N.
+      assert (E1 : ip p (A p) = 0) by (rewrite ip_comm; exact K).
+      assert (E2 : ip p (A y) = s) by (rewrite A_sym; reflexivity).
+      assert (E3 : ip y (A p) = s) by reflexivity.
+      rewrite E1, E2, E3 in N. fold d in N. lra. }
+    assert (S0 : s = 0).
+    { destruct (Req_dec s 0) as [E|E]; [exact E|]. exfalso. assert (0 < s) by lra.
+      destruct (Req_dec d 0) as [D0|D0].
+      - specialize (G 1). rewrite D0 in G. lra.
+      - assert (Hdn : d < 0) by lra. specialize (G (- s / d)).
+        assert (E' : 2 * (- s / d) * s + - s / d * (- s / d) * d = - (s * s) / d) by (field; exact D0).
+        rewrite E' in G.
+        assert (0 < - (s * s) / d).
+        { unfold Rdiv. rewrite <- Ropp_mult_distr_l, Ropp_mult_distr_r.
+          apply Rmult_lt_0_compat; [apply Rmult_lt_0_compat; lra|].
+          rewrite <- Rinv_opp. apply Rinv_0_lt_compat. lra. }
+        lra. }
+    intros q Hq. apply sq_zero. apply (lsumR_zero_terms (fun q => y q * y q) pts); auto.
+    intros; apply sq_nonneg.
+  Qed.
+
+  Variable b : P -> R.
+  Hypothesis b_orth : forall p, (forall q, In q pts -> A p q = 0) -> ip p b = 0.
+
+  (* the functional minimised by the solver; F x - F x* = 1/2 |x - x*|^2 in the (-A)-norm for a solution x* *)
+  Definition energy (x : P -> R) : R := ip b x - / 2 * ip x (A x).
+
+  Lemma energy_ext x x' : (forall q, In q pts -> x q = x' q) -> energy x = energy x'.
+  Proof.
+    intros H. unfold energy.
+    assert (E1 : ip b x = ip b x') by (apply ip_ext; auto).
+    assert (E2 : ip x (A x) = ip x' (A x')) by (apply ip_ext; auto; intros q Hq; apply A_ext; auto).
+    rewrite E1, E2. reflexivity.
+  Qed.
+
+  Lemma energy_step x p al :
+    energy (fun q => x q + al * p q) = energy x + al * (ip p b - ip p (A x)) - / 2 * (al * al) * ip p (A p).
+  Proof.
+    unfold energy. rewrite ip_add_r, ip_add_l, !ip_A_lin.
+    rewrite (A_sym x p), (ip_comm (A x) p), (ip_comm b p). cbv beta. field.
+  Qed.
+
+  (* one iteration: alpha = <r,r> / <A p, p> with <p, r> = <r, r> *)
+  Lemma cg_step_facts x r p :
+    is_residual b x r -> ip p r = ip r r ->
+    let al := ip r r / ip (A p) p in
+    energy (fun q => x q + al * p q) <= energy x /\
+    ip (fun q => r q - al * A p q) p = 0.
+  Proof.
+    intros Hres Hpr. cbv zeta. set (rho := ip r r) in *. set (ka := ip (A p) p).
+    assert (Hpr' : ip p b - ip p (A x) = rho).
+    { rewrite <- Hpr. rewrite (ip_ext p p r (fun q => b q + (-1) * A x q)); auto.
+      - rewrite ip_add_r. ring.
+      - intros q Hq. rewrite (Hres q Hq). ring. }
+    assert (Hka : ka <= 0) by (unfold ka; rewrite ip_comm; apply A_nsd).
+    assert (Hrho : 0 <= rho) by (apply lsumR_nonneg; intros; apply sq_nonneg).
+    destruct (Req_dec ka 0) as [K0|K0].
+    - (* degenerate direction: A p = 0, hence r = 0 *)
+      assert (Ap0 : forall q, In q pts -> A p q = 0) by (apply nsd_zero; exact K0).
+      assert (R0 : rho = 0).
+      { rewrite <- Hpr'. rewrite (b_orth p Ap0). rewrite A_sym. rewrite (ip_zero_l (A p) x Ap0). ring. }
+      assert (r0 : forall q, In q pts -> r q = 0).
+      { intros q Hq. apply sq_zero. apply (lsumR_zero_terms (fun q => r q * r q) pts); auto. intros; apply sq_nonneg. }
+      rewrite R0. unfold Rdiv. rewrite Rmult_0_l. split.
+      + rewrite energy_step. lra.
+      + apply ip_zero_l. intros q Hq. rewrite r0 by auto. ring.
+    - assert (Kn : ka < 0) by lra. split.
+      + rewrite energy_step, Hpr'. rewrite (ip_comm p (A p)). fold ka.
+        assert (E : rho / ka * rho - / 2 * (rho / ka * (rho / ka)) * ka = / 2 * (rho * rho) * / ka) by (field; exact K0).
+        assert (N : / 2 * (rho * rho) * / ka <= 0).
+        { assert (/ ka < 0) by (apply Rinv_lt_0_compat; exact Kn).
+          assert (0 <= / 2 * (rho * rho)) by (apply Rmult_le_pos; [lra | apply sq_nonneg]).
+          rewrite <- (Rmult_0_r (/ 2 * (rho * rho))). apply Rmult_le_compat_l; lra. }
+        lra.
+      + rewrite (ip_ext _ (fun q => r q + (- (rho / ka)) * A p q) p p) by (intros; auto; ring).
+        rewrite ip_add_l. rewrite (ip_comm r p), Hpr. fold ka. field. exact K0.
+  Qed.
+
+  (* the loop: the energy never increases *)
+  Lemma cg_loop_energy bnrm tol : forall fuel iter x r p bkden err,
+    is_residual b x r -> (iter = 0%Z \/ ip r p = 0) ->
+    energy (out_x (cg_loop Rops P peqb pts A fuel bnrm tol iter x r p bkden err)) <= energy x.
+  Proof.
+    induction fuel as [|fuel IH]; intros iter x r p bkden err Hres Hinv.
+    - cbn [cg_loop]. unfold out_x. cbn [fst]. lra.
+    - cbn [cg_loop].
+      set (bknum := vdot Rops P pts r r).
+      set (p' := if (iter + 1 =? 1)%Z then tabR r else tabR (fun q => nadd Rops (nmul Rops (ndiv Rops bknum bkden) (p q)) (r q))).
+      set (z := tabR (A p')).
+      set (ak := ndiv Rops bknum (vdot Rops P pts z p')).
+      set (x' := tabR (fun q => nadd Rops (x q) (nmul Rops ak (p' q)))).
+      set (r' := tabR (fun q => nsub Rops (r q) (nmul Rops ak (z q)))).
+      set (err' := ndiv Rops (l2norm Rops P pts r') bnrm).
+      (* <p', r> = <r, r> *)
+      assert (Hpr : ip p' r = ip r r).
+      { unfold p'. destruct (Z.eqb_spec (iter + 1) 1) as [E|E].
+        - apply ip_ext; [intros q Hq; apply tab_spec; auto | auto].
+        - destruct Hinv as [I0|I0]; [lia|].
+          rewrite (ip_ext _ (fun q => r q + bknum / bkden * p q) r r);
+            [|intros q Hq; rewrite tab_spec by auto; cbn [nadd nmul ndiv Rops]; ring | auto].
+          rewrite ip_add_l, (ip_comm p r), I0. ring. }
+      assert (Hak : ak = ip r r / ip (A p') p').
+      { unfold ak, bknum. cbn [ndiv Rops]. rewrite !vdot_eq. f_equal.
+        apply ip_ext; [intros q Hq; unfold z; apply tab_spec; auto | auto]. }
+      destruct (cg_step_facts x r p' Hres Hpr) as [S1 S2]. cbv zeta in S1, S2. rewrite <- Hak in S1, S2.
+      assert (Hres' : is_residual b x' r').
+      { intros q Hq. unfold r', x', z. rewrite !tab_spec by auto. cbn [nsub nadd nmul Rops].
+        rewrite (A_ext (tabR (fun q0 => x q0 + ak * p' q0)) (fun q0 => x q0 + ak * p' q0) q Hq)
+          by (intros q0 Hq0; apply tab_spec; auto).
+        rewrite A_linear, (Hres q Hq). ring. }
+      assert (Ex' : energy x' = energy (fun q => x q + ak * p' q)).
+      { apply energy_ext. intros q Hq. unfold x'. rewrite tab_spec by auto. reflexivity. }
+      assert (Hinv' : (iter + 1 = 0)%Z \/ ip r' p' = 0).
+      { right. rewrite <- S2. apply ip_ext; [|auto]. intros q Hq. unfold r', z. rewrite !tab_spec by auto.
+        cbn [nsub nmul Rops]. reflexivity. }
+      destruct (nleb Rops err' tol).
+      + unfold out_x. cbn [fst]. lra.
+      + specialize (IH (iter + 1)%Z x' r' p' bknum err' Hres' Hinv'). lra.
+  Qed.
+
+  Lemma cg_solve_energy itmax tol x0 err0 :
+    energy (out_x (cg_solve Rops P peqb pts A itmax tol b x0 err0)) <= energy x0.
+  Proof.
+    unfold cg_solve.
+    set (r0 := tabR (fun q => nsub Rops (b q) (A x0 q))).
+    assert (Hres : is_residual b x0 r0) by (intros q Hq; unfold r0; rewrite tab_spec by auto; reflexivity).
+    destruct (nltb Rops (l2norm Rops P pts b) (cg_eps Rops)).
+    - unfold out_x. cbn [fst]. lra.
+    - apply cg_loop_energy; auto.
+  Qed.
+
+  (* in terms of the error: for any solution xs of A xs = b, the (-A)-norm of x - xs does not increase *)
+  Definition err_norm2 (xs x : P -> R) : R := - ip (fun q => x q + (-1) * xs q) (A (fun q => x q + (-1) * xs q)).
+
+  Lemma energy_error xs x : (forall q, In q pts -> A xs q = b q) ->
+    err_norm2 xs x = 2 * energy x - ip xs (A xs).
+  Proof.
+    intros Hs. unfold err_norm2, energy. rewrite ip_A_lin, !ip_add_l.
+    rewrite (A_sym x xs), (ip_comm (A x) xs).
+    assert (E : ip b x = ip xs (A x)).
+    { rewrite A_sym. apply ip_ext; auto. intros q Hq. symmetry. auto. }
+    rewrite E. cbv beta. field.
+  Qed.
+
+  Lemma cg_solve_error_monotone itmax tol x0 err0 xs : (forall q, In q pts -> A xs q = b q) ->
+    err_norm2 xs (out_x (cg_solve Rops P peqb pts A itmax tol b x0 err0)) <= err_norm2 xs x0.
+  Proof.
+    intros Hs. rewrite !(energy_error xs) by auto. pose proof (cg_solve_energy itmax tol x0 err0). lra.
+  Qed.
 End CGProofs.
 
 (* ================================================================== the discrete Poisson statement *)
@@ -1058,7 +1249,10 @@ Section Poisson2.
     intros Hc. cbv zeta. unfold integrate2.
     assert (Hd : forall q, In q pts -> dv2 st q = div_value2 Rops sc sm sh st q)
       by (intros q Hq; apply Hc; apply (in_all_ix2 sh); auto).
-    split; [apply divergence_sums_to_zero2; auto|]. split; [|split].
+    split; [apply divergence_sums_to_zero2; auto|].
+    destruct (shape_ok2 sh);
+      [|unfold out_iter, out_err, out_x; cbn [fst snd]; repeat split; intros; lia].
+    split; [|split].
     - intros Hit Herr.
       pose proof (cg_residual_certificate _ _ ix2_eqb_eq pts A (atimes2_linear sh) A2_ext itmax tol (dv2 st) x0 err0 Hit Herr) as H.
       cbv zeta in H.
@@ -1070,6 +1264,33 @@ Section Poisson2.
     - intros Hit.
       destruct (cg_solve_spec _ _ ix2_eqb_eq pts A (atimes2_linear sh) A2_ext itmax tol (dv2 st) x0 err0) as [_ [_ [_ [H _]]]].
       apply H. exact Hit.
+  Qed.
+
+  (* the (-A)-norm of the error does not increase along the iterations of the solver (non-zero widths) *)
+  Hypothesis Hwx : wx sh <> 0.
+  Hypothesis Hwy : wy sh <> 0.
+
+  Lemma b_orth2 st : consistent2 Rops sc sm sh st ->
+    forall p, (forall q, In q pts -> A p q = 0) -> lsumR (fun q => p q * dv2 st q) pts = 0.
+  Proof.
+    intros Hc p Hp.
+    destruct (poisson_unique2 sh Hnx Hny Hwx Hwy p (fun _ => 0)) as [c Hcst].
+    { intros q Hq. rewrite laplacian_kernel2. apply Hp. apply (in_all_ix2 sh); auto. }
+    rewrite (lsumR_ext _ (fun q => c * div_value2 Rops sc sm sh st q)).
+    - rewrite lsumR_scal. rewrite divergence_sums_to_zero2 by auto. ring.
+    - intros q Hq. apply (in_all_ix2 sh) in Hq. rewrite (Hcst q Hq), (Hc q Hq). ring.
+  Qed.
+
+  Lemma cg_error_monotone2 st itmax tol x0 err0 xs :
+    consistent2 Rops sc sm sh st ->
+    (forall q, in_pmf2 sh q -> A xs q = div_value2 Rops sc sm sh st q) ->
+    err_norm2 _ pts A xs (out_x _ (integrate2 Rops sh itmax tol (dv2 st) x0 err0)) <= err_norm2 _ pts A xs x0.
+  Proof.
+    intros Hc Hs. unfold integrate2. destruct (shape_ok2 sh); [|unfold out_x; cbn [fst]; lra].
+    apply (cg_solve_error_monotone _ _ ix2_eqb_eq pts A (atimes2_linear sh) A2_ext
+             (laplacian_symmetric2 sh Hnx Hny) (fun x => laplacian_negative_semidefinite2 sh Hnx Hny Hwx Hwy x)
+             (dv2 st) (b_orth2 st Hc)).
+    intros q Hq. rewrite (Hc q) by (apply (in_all_ix2 sh); auto). apply Hs. apply (in_all_ix2 sh); auto.
   Qed.
 End Poisson2.
 
@@ -1103,7 +1324,10 @@ Section Poisson3.
     intros Hc. cbv zeta. unfold integrate3.
     assert (Hd : forall q, In q pts -> dv3 st q = div_value3 Rops sc sm sh st q)
       by (intros q Hq; apply Hc; apply (in_all_ix3 sh); auto).
-    split; [apply divergence_sums_to_zero3; auto|]. split; [|split].
+    split; [apply divergence_sums_to_zero3; auto|].
+    destruct (shape_ok3 sh);
+      [|unfold out_iter, out_err, out_x; cbn [fst snd]; repeat split; intros; lia].
+    split; [|split].
     - intros Hit Herr.
       pose proof (cg_residual_certificate _ _ ix3_eqb_eq pts A (atimes3_linear sh) A3_ext itmax tol (dv3 st) x0 err0 Hit Herr) as H.
       cbv zeta in H.
@@ -1115,6 +1339,33 @@ Section Poisson3.
     - intros Hit.
       destruct (cg_solve_spec _ _ ix3_eqb_eq pts A (atimes3_linear sh) A3_ext itmax tol (dv3 st) x0 err0) as [_ [_ [_ [H _]]]].
       apply H. exact Hit.
+  Qed.
+
+  Hypothesis Hwx : vx sh <> 0.
+  Hypothesis Hwy : vy sh <> 0.
+  Hypothesis Hwz : vz sh <> 0.
+
+  Lemma b_orth3 st : consistent3 Rops sc sm sh st ->
+    forall p, (forall q, In q pts -> A p q = 0) -> lsumR (fun q => p q * dv3 st q) pts = 0.
+  Proof.
+    intros Hc p Hp.
+    destruct (poisson_unique3 sh Hnx Hny Hnz Hwx Hwy Hwz p (fun _ => 0)) as [c Hcst].
+    { intros q Hq. rewrite laplacian_kernel3. apply Hp. apply (in_all_ix3 sh); auto. }
+    rewrite (lsumR_ext _ (fun q => c * div_value3 Rops sc sm sh st q)).
+    - rewrite lsumR_scal. rewrite divergence_sums_to_zero3 by auto. ring.
+    - intros q Hq. apply (in_all_ix3 sh) in Hq. rewrite (Hcst q Hq), (Hc q Hq). ring.
+  Qed.
+
+  Lemma cg_error_monotone3 st itmax tol x0 err0 xs :
+    consistent3 Rops sc sm sh st ->
+    (forall q, in_pmf3 sh q -> A xs q = div_value3 Rops sc sm sh st q) ->
+    err_norm2 _ pts A xs (out_x _ (integrate3 Rops sh itmax tol (dv3 st) x0 err0)) <= err_norm2 _ pts A xs x0.
+  Proof.
+    intros Hc Hs. unfold integrate3. destruct (shape_ok3 sh); [|unfold out_x; cbn [fst]; lra].
+    apply (cg_solve_error_monotone _ _ ix3_eqb_eq pts A (atimes3_linear sh) A3_ext
+             (laplacian_symmetric3 sh Hnx Hny Hnz) (fun x => laplacian_negative_semidefinite3 sh Hnx Hny Hnz Hwx Hwy Hwz x)
+             (dv3 st) (b_orth3 st Hc)).
+    intros q Hq. rewrite (Hc q) by (apply (in_all_ix3 sh); auto). apply Hs. apply (in_all_ix3 sh); auto.
   Qed.
 End Poisson3.
 
@@ -1169,6 +1420,7 @@ Qed.
 Lemma cg_example2 : let o := integrate2 Rops sh22 1 0 b22 (fun _ => 0) 0 in
   out_iter _ o = 1%Z /\ out_err _ o = 0.
 Proof.
+  unfold integrate2. change (shape_ok2 sh22) with true. cbv iota.
   apply (cg_eigen_one_step _ _ ix2_eqb_eq (all_ix2 sh22) (atimes2 Rops sh22) (atimes2_linear sh22)
            (A2_ext sh22 ltac:(reflexivity) ltac:(reflexivity)) 0%nat 0 b22 (-1) 0 b22_eigen); [lra | apply b22_norm | lra].
 Qed.
@@ -1194,7 +1446,68 @@ Qed.
 Lemma cg_example3 : let o := integrate3 Rops sh222 1 0 b222 (fun _ => 0) 0 in
   out_iter _ o = 1%Z /\ out_err _ o = 0.
 Proof.
+  unfold integrate3. change (shape_ok3 sh222) with true. cbv iota.
   apply (cg_eigen_one_step _ _ ix3_eqb_eq (all_ix3 sh222) (atimes3 Rops sh222) (atimes3_linear sh222)
            (A3_ext sh222 ltac:(reflexivity) ltac:(reflexivity) ltac:(reflexivity)) 0%nat 0 b222 (- (1 / 2)) 0 b222_eigen);
     [lra | apply b222_norm | lra].
 Qed.
+
+(* ------------------------------------------------------------------ the grids that are refused *)
+Lemma shape_ok2_spec {T} (sh : shape2 (T:=T)) : (0 < nxg sh)%Z -> (0 < nyg sh)%Z ->
+  (shape_ok2 sh = false <-> (px sh = true /\ nxg sh = 1%Z) \/ (py sh = true /\ nyg sh = 1%Z)).
+Proof.
+  intros Hx Hy. unfold shape_ok2, npmf. rewrite andb_false_iff, !Z.leb_gt.
+  destruct (px sh), (py sh); split; intros H; try lia;
+    try (destruct H as [H|H]; [left | right]; try (split; [reflexivity|]); lia);
+    try (destruct H as [[H1 H2]|[H1 H2]]; try discriminate; lia).
+Qed.
+
+Lemma shape_ok3_spec {T} (sh : shape3 (T:=T)) : (0 < mxg sh)%Z -> (0 < myg sh)%Z -> (0 < mzg sh)%Z ->
+  (shape_ok3 sh = false <->
+   (qx sh = true /\ mxg sh = 1%Z) \/ (qy sh = true /\ myg sh = 1%Z) \/ (qz sh = true /\ mzg sh = 1%Z)).
+Proof.
+  intros Hx Hy Hz. unfold shape_ok3, npmf. rewrite !andb_false_iff, !Z.leb_gt.
+  destruct (qx sh), (qy sh), (qz sh); split; intros H;
+    repeat match goal with
+           | H : _ \/ _ |- _ => destruct H
+           | H : _ /\ _ |- _ => destruct H
+           end; try discriminate; try lia;
+    try (left; split; [reflexivity | lia]); try (right; left; split; [reflexivity | lia]);
+    try (right; right; split; [reflexivity | lia]);
+    try (left; left; lia); try (left; right; lia); try (right; lia).
+Qed.
+
+(* a refused grid: integrate() makes no iteration and leaves the surface and the caller's error untouched *)
+Lemma integrate2_refused (sh : shape2 (T:=R)) itmax tol D x0 err0 : shape_ok2 sh = false ->
+  let o := integrate2 Rops sh itmax tol D x0 err0 in out_iter _ o = 0%Z /\ out_x _ o = x0 /\ out_err _ o = err0.
+Proof. intros H. cbv zeta. unfold integrate2. rewrite H. repeat split. Qed.
+Lemma integrate3_refused (sh : shape3 (T:=R)) itmax tol D x0 err0 : shape_ok3 sh = false ->
+  let o := integrate3 Rops sh itmax tol D x0 err0 in out_iter _ o = 0%Z /\ out_x _ o = x0 /\ out_err _ o = err0.
+Proof. intros H. cbv zeta. unfold integrate3. rewrite H. repeat split. Qed.
+
+Lemma cg_error_monotone2_history sc sm (sh : shape2 (T:=R)) st0 pre h itmax tol x0 err0 xs :
+  (0 < nxg sh)%Z -> (0 < nyg sh)%Z -> wx sh <> 0 -> wy sh <> 0 -> Forall (fun e => in_grad2 sh (fst e)) h ->
+  let st := run2 Rops sc sm sh (set_div2 Rops sc sm sh (preload2 Rops st0 pre)) h in
+  (forall q, in_pmf2 sh q -> atimes2 Rops sh xs q = div_value2 Rops sc sm sh st q) ->
+  err_norm2 _ (all_ix2 sh) (atimes2 Rops sh) xs (out_x _ (integrate2 Rops sh itmax tol (dv2 st) x0 err0))
+  <= err_norm2 _ (all_ix2 sh) (atimes2 Rops sh) xs x0.
+Proof.
+  intros Hx Hy Wx Wy Hh st Hs. apply (cg_error_monotone2 sc sm sh Hx Hy Wx Wy); auto.
+  apply run2_consistent; auto. apply set_div2_consistent; auto.
+Qed.
+
+Lemma cg_error_monotone3_history sc sm (sh : shape3 (T:=R)) st0 pre h itmax tol x0 err0 xs :
+  (0 < mxg sh)%Z -> (0 < myg sh)%Z -> (0 < mzg sh)%Z -> vx sh <> 0 -> vy sh <> 0 -> vz sh <> 0 ->
+  Forall (fun e => in_grad3 sh (fst e)) h ->
+  let st := run3 Rops sc sm sh (set_div3 Rops sc sm sh (preload3 Rops st0 pre)) h in
+  (forall q, in_pmf3 sh q -> atimes3 Rops sh xs q = div_value3 Rops sc sm sh st q) ->
+  err_norm2 _ (all_ix3 sh) (atimes3 Rops sh) xs (out_x _ (integrate3 Rops sh itmax tol (dv3 st) x0 err0))
+  <= err_norm2 _ (all_ix3 sh) (atimes3 Rops sh) xs x0.
+Proof.
+  intros Hx Hy Hz Wx Wy Wz Hh st Hs. apply (cg_error_monotone3 sc sm sh Hx Hy Hz Wx Wy Wz); auto.
+  apply run3_consistent; auto. apply set_div3_consistent; auto.
+Qed.
+
+(* a solution exists in the witness case: A (-b22) = b22 *)
+Lemma b22_solution q : In q (all_ix2 sh22) -> atimes2 Rops sh22 (fun p => 0 + -1 * b22 p) q = b22 q.
+Proof. intros Hq. rewrite atimes2_linear, laplacian_kernel2, (b22_eigen q Hq). ring. Qed.
